@@ -29,7 +29,7 @@ impl Client {
             Client::PeekNext => "peeknext".into(),
             Client::LoadMulti => "load-multi".into(),
             Client::LoadSingle => "load-single".into(),
-            Client::Loader(n, v) => format!("loader:{}:{}", NODE_TYPES[*n as usize % 4], VIAS[*v as usize % 3]),
+            Client::Loader(n, v) => format!("loader:{}:{}", NODE_TYPES[*n as usize % 4], VIAS[*v as usize % 4]),
         }
     }
     pub fn parse(s: &str) -> Option<Client> {
@@ -49,7 +49,7 @@ impl Client {
 }
 
 pub const NODE_TYPES: [&str; 4] = ["Yaml", "YamlOwned", "MarkedYaml", "MarkedYamlOwned"];
-pub const VIAS: [&str; 3] = ["parser", "iter", "str"];
+pub const VIAS: [&str; 4] = ["parser", "iter", "str", "lazy"];
 
 #[derive(Clone, Debug)]
 pub struct Case {
